@@ -90,6 +90,8 @@ def gen_spec(rng, tier="quick", for_crash=False, anchor=None):
         d = {"time": t, "width": rng.choice([50, 30, 20, 80, 12.5, 5, rng.randint(5, 120)] + ([100 / 3, 37.123456789, 0.1 + 0.2 + 20] if rng.random() < 0.3 else []))}
         if rng.random() < 0.5:
             d["text"] = rng.choice(TEXTS)
+        if for_crash and rng.random() < 0.04:
+            d["width"] = rng.choice([0, 0.0])          # an explicit width of zero is an explicit width
         data.append(d)
     o = {}
     if rng.random() < 0.8:
